@@ -866,6 +866,7 @@ func Forall(vars []*Term, body *Term) *Term {
 	if body.IsTrue() {
 		return TTrue
 	}
+	vars, body = canonBind(vars, body)
 	t := mk("forall", fmt.Sprint(varIDs(vars)), SBool, nil, body)
 	t.Bnd = vars
 	return t
@@ -875,9 +876,60 @@ func Exists(vars []*Term, body *Term) *Term {
 	if body.IsFalse() {
 		return TFalse
 	}
+	vars, body = canonBind(vars, body)
 	t := mk("exists", fmt.Sprint(varIDs(vars)), SBool, nil, body)
 	t.Bnd = vars
 	return t
+}
+
+// canonBind renames the bound variables of a quantifier to names determined by the nesting
+// height of the quantifier (inner quantifiers have strictly smaller heights, so no capture),
+// so that two evaluations of the same specification formula give the identical term whatever
+// the names and depths of the contexts they were evaluated in.
+func canonBind(vars []*Term, body *Term) ([]*Term, *Term) {
+	if os.Getenv("GOVC_NOCANON") != "" {
+		return vars, body
+	}
+	h := quantHeight(body) + 1
+	m := map[*Term]*Term{}
+	out := make([]*Term, len(vars))
+	for k, v := range vars {
+		name := fmt.Sprintf("$b!%d!%d!%s", h, k, v.Sort.String())
+		nv := Sym(name, v.Sort)
+		if v.Rng != nil || strings.HasPrefix(v.Name, "$b!") {
+			nv = v // typed or already canonical: keep
+		}
+		out[k] = nv
+		if nv != v {
+			m[v] = nv
+		}
+	}
+	if len(m) > 0 {
+		body = Subst(body, m)
+	}
+	return out, body
+}
+
+var quantHeightMemo = map[*Term]int{}
+
+func quantHeight(t *Term) int {
+	if len(t.Args) == 0 {
+		return 0
+	}
+	if h, ok := quantHeightMemo[t]; ok {
+		return h
+	}
+	h := 0
+	for _, a := range t.Args {
+		if x := quantHeight(a); x > h {
+			h = x
+		}
+	}
+	if t.Op == "forall" || t.Op == "exists" {
+		h++
+	}
+	quantHeightMemo[t] = h
+	return h
 }
 
 func varIDs(vs []*Term) []int {
